@@ -111,7 +111,7 @@ impl Stdfs {
     pub fn all_dirs<T: AsRef<Path>>(path: T) -> RvResult<Vec<PathBuf>> {
         let mut paths: Vec<PathBuf> = vec![];
         let src = StdfsEntry::from(path)?;
-        if !src.is_dir() {
+        if !src.is_dir() || src.is_symlink() {
             return Err(PathError::is_not_dir(src.path_buf()).into());
         }
         for entry in Stdfs::entries(src.path())?.min_depth(1).sort_by_name().dirs() {
@@ -144,7 +144,7 @@ impl Stdfs {
     pub fn all_files<T: AsRef<Path>>(path: T) -> RvResult<Vec<PathBuf>> {
         let mut paths: Vec<PathBuf> = vec![];
         let src = StdfsEntry::from(path)?;
-        if !src.is_dir() {
+        if !src.is_dir() || src.is_symlink() {
             return Err(PathError::is_not_dir(src.path_buf()).into());
         }
         for entry in Stdfs::entries(src.path())?.min_depth(1).sort_by_name().files() {
@@ -179,7 +179,7 @@ impl Stdfs {
     pub fn all_paths<T: AsRef<Path>>(path: T) -> RvResult<Vec<PathBuf>> {
         let mut paths: Vec<PathBuf> = vec![];
         let src = StdfsEntry::from(path)?;
-        if !src.is_dir() {
+        if !src.is_dir() || src.is_symlink() {
             return Err(PathError::is_not_dir(src.path_buf()).into());
         }
         for entry in Stdfs::entries(src.path())?.min_depth(1).sort_by_name() {
@@ -852,7 +852,7 @@ impl Stdfs {
     /// ```
     pub fn is_exec<T: AsRef<Path>>(path: T) -> bool {
         match Stdfs::abs(path) {
-            Ok(x) => match fs::metadata(x) {
+            Ok(x) => match fs::symlink_metadata(x) {
                 Ok(y) => y.permissions().mode() & 0o111 != 0,
                 Err(_) => false,
             },
@@ -922,7 +922,7 @@ impl Stdfs {
     /// ```
     pub fn is_readonly<T: AsRef<Path>>(path: T) -> bool {
         match Stdfs::abs(path) {
-            Ok(x) => match fs::metadata(x) {
+            Ok(x) => match fs::symlink_metadata(x) {
                 Ok(y) => y.permissions().readonly(),
                 Err(_) => false,
             },
